@@ -18,7 +18,7 @@ _FN = None
 def _call(case):
     try:
         from . import factory
-        factory.new_case()
+        factory.new_case(case)
         return _FN(case)
     except BaseException as e:  # harness bug, or an exception raised by the library in a call the check expected to succeed
         from . import REPO, VERIF
